@@ -41,9 +41,14 @@ def classify(lin, z, row, s_du, observed, ps, dspec, correct):
             code_assign = tuple(srt.index(k) for k in ks)
         else:
             code_assign = tuple(range(ns))
-        lin_bads = [gen.linear_problem(dspec, ps, code_assign, concat_labels=v)
-                    for v in gen.tied_label_variants(dspec)]
-        emus.append("survey-labels-not-time-sorted")
+        # the listed finding is about inputs whose concatenation order is not their time order: there the time sort moves
+        # rows and the labels stay behind. On chronological input (ties included) the pinned code labels correctly, so a
+        # mismatch there is never explained away by this emulation.
+        labels_sorted = gen.merged(dspec)[3]
+        if not bool(np.all(np.diff(labels_sorted) >= 0)):
+            lin_bads = [gen.linear_problem(dspec, ps, code_assign, concat_labels=v)
+                        for v in gen.tied_label_variants(dspec)]
+            emus.append("survey-labels-not-time-sorted")
     # (emulations of the repaired kernel defects - jitter ignored, P0 unit, custom-K slot - were removed once
     #  they were fixed: a regression of those is an ordinary VIOLATION now)
     for r in range(1, len(emus) + 1):
@@ -73,7 +78,13 @@ def run(ctx):
     for i in ctx.cases(ncfg):
         rng = ctx.rng(i)
         n_off = int(rng.choice([0, 1, 2, 3], p=[.45, .3, .15, .1]))
-        dspec = gen.gen_data_spec(rng, n_surveys=n_off + 1)
+        if i % 18 == 11:
+            # many surveys (two-digit offset names), chronological list so that the known label defect stays out
+            n_off = int(rng.integers(10, 13))
+            dspec = gen.gen_data_spec(rng, n_surveys=n_off + 1, n_epochs=n_off + 1 + int(rng.integers(0, 6)), layout="disjoint")
+            dspec["form"], dspec["keys"] = "list", None
+        else:
+            dspec = gen.gen_data_spec(rng, n_surveys=n_off + 1)
         ps = gen.gen_prior_spec(rng, dspec["unit"], n_offsets=n_off)
         nep = sum(len(s["t"]) for s in dspec["surveys"])
         nrows = nrows_default if nep <= 14 else max(6, nrows_default // 5)
